@@ -322,10 +322,11 @@ def phase_strace(c, bindir, hx, strace_cases):
               tr.Tool("gigaword_unwrap", [], big_gw, kind="iostream", label="gigaword_unwrap-big")]
     jobs = []
     clean = {}
+    strace_failures = []
     for t in tools:
         rc, out, calls = strace_run(t, bindir, hx)
         if rc != 0 or not calls:
-            c.broken.append("strace: clean run of %s failed (rc=%s, %d calls): ptrace not permitted?" % (t.label, rc, len(calls)))
+            strace_failures.append("%s rc=%s calls=%d" % (t.label, rc, len(calls)))
             continue
         clean[t.label] = (out, calls)
         for op in ("read", "write"):
@@ -337,6 +338,14 @@ def phase_strace(c, bindir, hx, strace_cases):
                 if (op == "read" and fd == 0) or (op == "write" and fd == 1):
                     for eno in ((5, 28, 32) if op == "write" else (5,)):
                         jobs.append((t, (op, ERRNO_NAMES[eno], idx), eno))
+
+    if strace_failures and not clean:
+        # ptrace is not available in this environment: say so instead of failing the check
+        c.assumptions.append("strace could not trace any tool here (%s): the k-th-system-call injection for the iostream tools was skipped; "
+                             "they are still exercised with /dev/full, RLIMIT_FSIZE at every byte, closed pipes and a directory on stdin" % strace_failures[0])
+        return
+    for f in strace_failures:
+        c.broken.append("strace: clean run failed: " + f)
 
     def work(j):
         t, inject, eno = j
@@ -712,6 +721,27 @@ def phase_model(c, drv, hx, model_cases, kernel_cases, child_cases, strace_cases
             l, fin = gen_tool_case(c.rng, True, plan=plan)
             lines.append(l)
             fins.append(fin)
+    # the read loops of util/file.cc: ReadOrEOF / ReadOrThrow with short reads, EINTR, early EOF and errors at every step
+    for i in range(150 if c.tier == "quick" else 2000):
+        rng = c.rng
+        amount = rng.choice([0, 1, 2, 6, 6, 17, 100])
+        remaining, outs = amount, []
+        for step in range(rng.randrange(0, 6)):
+            r = rng.random()
+            if r < 0.15:
+                outs.append("e:4")
+            elif r < 0.25:
+                outs.append("e:%d" % rng.choice([5, 28, 32]))
+                break
+            elif r < 0.4 or remaining <= 0:
+                outs.append("o:0:")
+                break
+            else:
+                n = rng.randrange(1, remaining + 1)
+                outs.append("o:%d:%s" % (n, bytes(rng.randrange(256) for _ in range(n)).hex()))
+                remaining -= n
+        lines.append("%s %d | %s" % (rng.choice(["ROE", "ROT"]), amount, " ".join(outs)))
+        fins.append(b"")
     for code in range(256):
         lines.append("WAIT exit:%d" % code)
         fins.append(b"")
@@ -725,6 +755,16 @@ def phase_model(c, drv, hx, model_cases, kernel_cases, child_cases, strace_cases
             if l.startswith("T "):
                 failed = harness_oracle(c, l, fin, o)
                 c.count(l, bucket="library/%s/%s" % ("big" if int(l.split()[1]) >= 4096 and len(l) > 9000 else "small", "failed-call" if failed else "clean"))
+            elif l.startswith("RO"):
+                c.count(l, bucket="library/read-loops")
+                st, ev = parse_trace(o.split(" R:")[0])
+                bad = [e for e in ev if e[3] < 0 and e[4] != 4]
+                toks = l.split("|", 1)[1].split()
+                delivered = b"".join(bytes.fromhex(tk.split(":")[2]) for tk, e in zip(toks, ev) if tk.startswith("o:") and e[3] > 0)
+                if bad and st == "exit:0":
+                    c.violation("io-error-exit-0(library): %s returns normally although read failed with errno %d" % (l.split()[0], bad[0][4]), {"harness": "hx_exit", "case": l[:600], "impl": o[:400]})
+                if st == "exit:0" and " R:" in o and bytes.fromhex(o.split(" R:")[1]) != delivered:
+                    c.violation("read-loop-wrong-data(library): %s returned bytes that are not the concatenation of what the reads delivered" % l.split()[0], {"harness": "hx_exit", "case": l[:600], "impl": o[:400]})
             elif l.startswith("WAIT"):
                 c.count(l, bucket="library/Wait")
                 kind, v = l.split()[1].split(":")
